@@ -24,6 +24,22 @@ TIMES = 'history/times.py'; HFILES = 'history/files.py'; TNETS = 'server/tnetstr
 POLL = 'server/enip/poll.py'; DEFAULTS = 'server/enip/defaults.py'; NETWORK = 'server/network.py'
 
 VARIANTS = [
+    # ---- repairs BY BZ CA CB ( round 8 )
+    V( 'once-rerun-not-barred', DEVICE, 'assert not entered, "request failed in its target Object"\n answerer.request( req, addr=addr )', "answerer.request( req, addr=addr )", fires=[ 'P-ONCE' ] ),
+    V( 'once-flag-set-after-dispatch', DEVICE, "entered = True\n target.request( data.request, addr=addr )", "target.request( data.request, addr=addr )\n            entered		= True", fires=[ 'P-ONCE' ] ),
+    V( 'once-unrenderable-reply-keeps-status', DEVICE, "data.status = 0x11 # Reply data too large", "pass", fires=[ 'P-ONCE' ] ),
+    V( 'once-bar-as-if', DEVICE, 'assert not entered, "request failed in its target Object"\n answerer.request( req, addr=addr )', "if not entered:\n                    answerer.request( req, addr=addr )\n                else:\n                    raise AssertionError( 'request failed in its target Object' )", silent=[ 'P-ONCE' ] ),
+    V( 'iso-stats-entry-taken-over', MAIN, "stats,connkey = stats_for( addr, fresh=True )", "stats,connkey	= stats_for( addr )", fires=[ 'R-ISO' ] ),
+    V( 'iso-fresh-ignored', MAIN, "stats = None if fresh else connections.get( connkey )", "stats			= connections.get( connkey )", fires=[ 'R-ISO' ] ),
+    V( 'iso-fresh-positional', MAIN, "stats,connkey = stats_for( addr, fresh=True )", "stats,connkey	= stats_for( addr, True )", silent=[ 'R-ISO', 'E-CONTAIN' ] ),
+    V( 'record-comment-bare-second-line', HFILES, "self._append( '# ' + s.replace( '\\n', '\\n# ' ) + '\\n', encoding=encoding )", "self._append( '# ' + s + '\\n', encoding=encoding )", fires=[ 'T-RECORD' ] ),
+    V( 'record-comment-joined-lines', HFILES, "self._append( '# ' + s.replace( '\\n', '\\n# ' ) + '\\n', encoding=encoding )", "self._append( ''.join( '# ' + l + '\\n' for l in s.split( '\\n' )), encoding=encoding )", silent=[ 'T-RECORD' ] ),
+    V( 'limit-negative-reaches-loop', MODBUS, "if not limit or limit < 0: # no usable limit given", "if not limit:", fires=[ 'M-LIMIT' ] ),
+    V( 'limit-explicit-ignored-for-registers', MODBUS, "if not limit or limit < 0: # no usable limit given\n if ( 1 <= address <= 9999\n or 10001 <= address <= 19999\n or 100001 <= address <= 165536 ):\n # Coil read/write or Status read.\n limit = 1968\n else:\n # Other type of register read/write (eg. Input, Holding)\n limit = 123", "if limit is None or limit <= 0:\n        limit = 123\n    if (        1 <= address <= 9999\n        or  10001 <= address <= 19999\n        or 100001 <= address <= 165536 ):\n        limit = max( limit, 1968 )", fires=[ 'M-LIMIT' ] ),
+    V( 'limit-default-by-helper-form', MODBUS, "if not limit or limit < 0: # no usable limit given", "if limit is None or limit <= 0:", silent=[ 'M-LIMIT' ] ),
+    V( 'statusdata-bundle-producer-only-success', DEVICE, "if data.status in (0x00, 0x1E):", "if data.status == 0x00:", fires=[ 'L-STATUSDATA' ] ),
+    V( 'statusdata-read-frag-parser-only-success', LOGIX, "predicate=lambda path=None, data=None, **kwds: data[path+'.status' if path else 'status'] in (0x00, 0x06) )\n schk[None] = move_if( 'mark', initializer=True,\n destination='read_frag' )", "predicate=lambda path=None, data=None, **kwds: data[path+'.status' if path else 'status'] == 0x00 )\n    schk[None]			= move_if(	'mark',		initializer=True,\n                                                destination='read_frag' )", fires=[ 'L-STATUSDATA' ] ),
+    V( 'statusdata-set-display', DEVICE, "if data.status in (0x00, 0x1E):", "if data.status in { 0x1E, 0x00 }:", silent=[ 'L-STATUSDATA' ] ),
     V( 'routefirst-own-services-first', LOGIX, "target = self.route( data, fail=Message_Router.ROUTE_FALSE )\n if target:\n if log.isEnabledFor( logging.DETAIL ):\n log.detail( \"%s Routing to %s: %s\", self, target, enip_format( data ))\n return target.request( data, addr=addr )\n", "if 'read_tag' not in data and 'read_frag' not in data:\n            target		= self.route( data, fail=Message_Router.ROUTE_FALSE )\n            if target:\n                return target.request( data, addr=addr )\n", fires=[ 'P-ROUTEFIRST' ] ),
     V( 'routefirst-without-logging', LOGIX, "if target:\n if log.isEnabledFor( logging.DETAIL ):\n log.detail( \"%s Routing to %s: %s\", self, target, enip_format( data ))\n return target.request( data, addr=addr )", "if target:\n            return target.request( data, addr=addr )", silent=[ 'P-ROUTEFIRST' ] ),
     V( 'optype-dot-overrules-cast', CLIENT, "if '.' in val:\n opr['tag_type'],size,cast = CIP_TYPES['REAL']\n else:\n opr['tag_type'],size,cast = CIP_TYPES[int_type.strip().upper()]\n # Allow an optional (TYPE)value,value,...\n if val.strip().startswith( '(' ) and ')' in val:\n typ,val = val.split( ')', 1 ) # Get leading: ['(TYPE', '), ...]\n _,typ = typ.split( '(', 1 )\n opr['tag_type'],size,cast = CIP_TYPES[typ.strip().upper()]",
